@@ -23,7 +23,8 @@ RULE = ("Hypothesis generates a symbolic link (name from the byte alphabet) whos
 ASSUMPTIONS = ["a spelling with trailing slashes names the link iff the kernel resolves it "
                "(link -> directory); 'link-to-file/' and 'dangling/' name nothing"]
 
-TARGETS = ["file", "dir", "tree", "link_to_file", "link_to_dir", "nothing", "self", "dotdot"]
+TARGETS = ["file", "dir", "tree", "link_to_file", "link_to_dir", "nothing", "self", "dotdot",
+           "volume_root", "fs_root"]
 
 
 def examples(tier):
@@ -84,6 +85,10 @@ def run_case(case):
         text = case["name"]
     elif case["target"] == "dotdot":
         text = ".."
+    elif case["target"] == "volume_root":   # the link points at a mount point
+        text = "/vol2" if case["link_vol"] != "vol2" else "/vol"
+    elif case["target"] == "fs_root":
+        text = "/"
     else:
         tp = TD + "/" + tname
         text = {"abs": tp, "rel": posixpath.relpath(tp, D),
